@@ -7,7 +7,7 @@
 (*     inputs: rho = the prior pending reports the driver installed (must be what the  *)
 (*     previous accepted block left), judge = report ids given a wonky verdict by the  *)
 (*     block's disputes extrinsic (run through extrinsic.Disputes()), as = assurances  *)
-(*     [v, f = bitfield octet, anchor "ok"|"bad", sig = "ok" or how the driver spoiled *)
+(*     [v, f = bitfield octets, anchor "ok"|"bad", sig = "ok" or how the driver spoiled *)
 (*     the Ed25519 signature], place = <<<<core, report id>>>> guarantees.             *)
 (*     outputs: stage = "ok" (block accepted) | "decode" | "assurances" | "reports"    *)
 (*     (who refused), err = class named by the refusal ("anchor" "index" "core" "sig"  *)
@@ -29,12 +29,13 @@ Trace == ndJsonDeserialize(TraceFile)
 e == Trace[l]
 Is(name) == l <= Len(Trace) /\ e.ev = name /\ l' = l + 1
 
-RECURSIVE Pow2(_)
-Pow2(n) == IF n = 0 THEN 1 ELSE 2 * Pow2(n - 1)
-FOfByte(f, C) == {c \in 1..C : (f \div Pow2(c - 1)) % 2 = 1}
-Padded(f, C) == (f \div Pow2(C)) # 0
+\* bitfield octets: bit (c mod 8) of octet (c div 8), least significant first, for core index c
+Pow2 == <<1, 2, 4, 8, 16, 32, 64, 128>>
+BitAt(f, k) == (f[(k \div 8) + 1] \div Pow2[(k % 8) + 1]) % 2 = 1
+FOf(f, C) == {c \in 1..C : BitAt(f, c - 1)}
+Padded(f, C) == \E k \in C..(8 * Len(f) - 1) : BitAt(f, k)
 RhoOf(j) == [c \in 1..Len(j) |-> [r |-> j[c][1], t |-> j[c][2]]]
-EOf(as, C) == [i \in 1..Len(as) |-> [v |-> as[i].v, f |-> FOfByte(as[i].f, C), anchor |-> (as[i].anchor = "ok"), sig |-> as[i].sig]]
+EOf(as, C) == [i \in 1..Len(as) |-> [v |-> as[i].v, f |-> FOf(as[i].f, C), anchor |-> (as[i].anchor = "ok"), sig |-> as[i].sig]]
 Places(p) == [i \in 1..Len(p) |-> [c |-> p[i][1] + 1, r |-> p[i][2]]]
 WOf(j) == [i \in 1..Len(j) |-> [r |-> j[i][1], c |-> j[i][2] + 1]]
 
@@ -44,41 +45,48 @@ TReset == /\ Is("Reset")
           /\ settled' = FALSE
           /\ cfg' = [V |-> e.V, C |-> e.C, U |-> e.U]
 
+\* The judgement of one block as a VALUE [good, accepted, post] (evaluated as an expression: in an action TLC
+\* would enumerate every way of satisfying the disjunctions under the quantifiers).  Values are bound through
+\* singleton sets and TLCEval: TLC would re-evaluate a LET definition / a lazy function at every use.
+Outcome(ev, r0, k) ==
+  LET No == [good |-> FALSE, accepted |-> FALSE, post |-> r0] IN
+  IF RhoOf(ev.rho) # r0 THEN No                          \* the driver did not carry the posterior over
+  ELSE
+  CHOOSE o \in
+   UNION {UNION {UNION {UNION {UNION {
+     LET padded == \E i \in 1..Len(ev.as) : Padded(ev.as[i].f, k.C)
+         untouched == RhoOf(ev.prior_after) \in {r0, rhoD} /\ ~ev.post_set
+         refusedOK == [good |-> TRUE, accepted |-> FALSE, post |-> r0]
+     IN IF padded /\ ev.stage \in {"decode", "assurances"}                          \* P3
+        THEN {[refusedOK EXCEPT !.good = untouched]}
+        ELSE IF D # {}
+        THEN {[refusedOK EXCEPT !.good = /\ ev.stage = "assurances"
+                                        /\ ev.err \in MayName(E, k.V, rhoD)          \* P2
+                                        /\ untouched]}                               \* refused => no state change
+        ELSE IF ~(/\ ev.stage \in {"ok", "reports"}
+                  /\ RhoOf(ev.rho_dagger) = rhoD                                    \* 10.15 feeding 11.15 - 11.17
+                  /\ RhoOf(ev.rho_dd) = dd                                          \* 11.17
+                  /\ WOf(ev.w) = w                                                  \* 11.16
+                  /\ AvailNotPending(w, dd) /\ AvailIffSuper(w, cnt, rhoD, k.V)
+                  /\ OnlyRemoves(r0, dd) /\ NoTimedOut(dd, ev.slot, k.U))
+        THEN {No}
+        ELSE IF Engaged(dd, P)
+        THEN {[refusedOK EXCEPT !.good = (ev.stage = "reports" /\ ev.err = "core_engaged")]}   \* 11.29
+        ELSE {[good |-> (ev.stage = "ok" /\ RhoOf(ev.rho_post) = post), accepted |-> TRUE, post |-> post]}   \* 11.43
+     : post \in {TLCEval(RhoPost(dd, P, ev.slot))}}
+     : dd \in {TLCEval(RhoDDS(r0, rhoD, S, ev.slot, k.U))}, w \in {TLCEval(AvailSeqS(S, rhoD))}}
+     : S \in {AvailCoresN(cnt, k.V, rhoD)}}
+     : D \in {Defects(E, k.V, rhoD)}, cnt \in {TLCEval(Counts(E, k.C))}, P \in {TLCEval(Places(ev.place))}}
+     : E \in {TLCEval(EOf(ev.as, k.C))}, rhoD \in {TLCEval(RhoDagger(r0, SeqSet(ev.judge)))}}
+   : TRUE
+
 TBlock ==
   /\ Is("Block")
-  /\ RhoOf(e.rho) = rho                                    \* the driver carried the posterior over
-  /\ LET E == EOf(e.as, cfg.C)
-         rhoD == RhoDagger(rho, SeqSet(e.judge))
-         D == Defects(E, cfg.V, rhoD)
-         padded == \E i \in 1..Len(e.as) : Padded(e.as[i].f, cfg.C)
-         dd == RhoDD(rho, rhoD, E, cfg.V, e.slot, cfg.U)
-         w == AvailSeq(E, cfg.V, rhoD)
-         P == Places(e.place)
-         untouched == RhoOf(e.prior_after) \in {rho, rhoD} /\ ~e.post_set
-     IN \/ /\ padded                                                          \* P3
-           /\ e.stage \in {"decode", "assurances"}
-           /\ untouched
-           /\ UNCHANGED <<rho, tau, settled>>
-        \/ /\ D # {}
-           /\ e.stage = "assurances"
-           /\ e.err \in MayName(E, cfg.V, rhoD)                               \* P2
-           /\ untouched                                                       \* refused => no state change
-           /\ UNCHANGED <<rho, tau, settled>>
-        \/ /\ D = {}
-           /\ e.stage \in {"ok", "reports"}
-           /\ RhoOf(e.rho_dagger) = rhoD                                      \* 10.15 feeding 11.15 - 11.17
-           /\ RhoOf(e.rho_dd) = dd                                            \* 11.17
-           /\ WOf(e.w) = w                                                    \* 11.16
-           /\ AvailNotPending(w, dd) /\ AvailIffSuper(w, Counts(E, cfg.C), rhoD, cfg.V)
-           /\ OnlyRemoves(rho, dd) /\ NoTimedOut(dd, e.slot, cfg.U)
-           /\ IF Engaged(dd, P)
-              THEN /\ e.stage = "reports" /\ e.err = "core_engaged"           \* 11.29
-                   /\ UNCHANGED <<rho, tau, settled>>
-              ELSE /\ e.stage = "ok"
-                   /\ RhoOf(e.rho_post) = RhoPost(dd, P, e.slot)               \* 11.43
-                   /\ rho' = RhoPost(dd, P, e.slot)
-                   /\ tau' = e.slot
-                   /\ settled' = TRUE
+  /\ \E o \in {Outcome(e, rho, cfg)} :
+       /\ o.good = TRUE
+       /\ rho' = o.post
+       /\ tau' = IF o.accepted THEN e.slot ELSE tau
+       /\ settled' = (settled \/ o.accepted)
   /\ UNCHANGED cfg
 
 TraceInit == l = 1 /\ rho = <<>> /\ tau = 0 /\ settled = FALSE /\ cfg = [V |-> 6, C |-> 2, U |-> 5]
